@@ -131,6 +131,79 @@ theorem out_of_range_error (m n : Nat) (A : List (List α)) (b : ScalarOr α) (i
 
 end ring
 
+/-! ## combine_bcs, blocked numbering -/
+
+section combine
+variable {β : Type} [Inhabited β]
+
+/-- `combine_bcs` succeeds whenever every `(indices, values)` pair has matching sizes
+(otherwise it is the `AssertionError` branch). -/
+theorem combine_bcs_ok (bcs : List (List Nat × List β)) (h : ∀ bc ∈ bcs, bc.1.length = bc.2.length) :
+    ∃ r, combineBcs bcs = .ok r := ⟨_, combineBcs_ok bcs h⟩
+
+/-- ★ **`combine_bcs_spec`**: the combined index array is strictly increasing (so every dof
+occurs exactly once), contains exactly the dofs that occur in some input condition, and there
+is one value per dof. -/
+theorem combine_bcs_spec (bcs : List (List Nat × List β)) (ui : List Nat) (uv : List β)
+    (h : combineBcs bcs = .ok (ui, uv)) :
+    ui.Pairwise (· < ·) ∧ (∀ i, i ∈ ui ↔ ∃ bc ∈ bcs, i ∈ bc.1) ∧ uv.length = ui.length := by
+  obtain ⟨_, rfl, rfl⟩ := combineBcs_inv h
+  refine ⟨unique_pairwise _, fun i => ?_, by simp [uniqueIndex]⟩
+  rw [mem_unique, List.mem_flatMap]
+
+/-- ★ the value kept for the `k`-th combined dof is the value at the **first** occurrence of that
+dof in the concatenation of the inputs (`np.unique(..., return_index=True)`): there is a position
+`p` with `indices[p] = ui[k]`, no earlier position holds that dof, and `uv[k] = values[p]`. -/
+theorem combine_bcs_value (bcs : List (List Nat × List β)) (ui : List Nat) (uv : List β)
+    (h : combineBcs bcs = .ok (ui, uv)) (k : Nat) (hk : k < ui.length) :
+    ∃ p, p < (bcs.flatMap (·.1)).length ∧ (bcs.flatMap (·.1)).getD p 0 = ui[k] ∧
+      (∀ q, q < p → (bcs.flatMap (·.1)).getD q 0 ≠ ui[k]) ∧
+      uv.getD k default = (bcs.flatMap (·.2)).getD p default := by
+  obtain ⟨_, rfl, rfl⟩ := combineBcs_inv h
+  have hm : (unique (bcs.flatMap (·.1)))[k] ∈ bcs.flatMap (·.1) := mem_unique.1 (List.getElem_mem hk)
+  obtain ⟨h1, h2, h3⟩ := idxOf_first _ _ hm
+  refine ⟨_, h1, h2, h3, ?_⟩
+  simp [uniqueIndex, List.getD_eq_getElem?_getD, List.getElem?_map, List.getElem?_eq_getElem hk]
+
+end combine
+
+/-- ★ blocked vector numbering `i + comp·N` (`bdindices + j*NN` in `compute_dirichlet_bc`) is
+injective for `i < N`: different components never share a dof. -/
+theorem blocked_numbering_injective {N i i' j j' : Nat} (hi : i < N) (hi' : i' < N)
+    (h : i + j * N = i' + j' * N) : j = j' ∧ i = i' := blocked_inj hi hi' h
+
+example : combineBcs [([5, 2, 7], [50, 20, 70]), ([2, 9, 5], [(21 : Int), 90, 51])] =
+    .ok ([2, 5, 7, 9], [20, 50, 70, 90]) := rfl
+example : combineBcs [([5, 2], [(50 : Int)])] = .error .assertion := rfl
+
+/-! ## compute_initial_condition_01 -/
+
+/-- ★ **`initial_condition_01`** (over any field).  When `compute_initial_condition_01` returns
+`(indices, values)`, the indices are the two dof slices next to the face
+(`slice_indices(ax, first)` followed by `slice_indices(ax, first+1)`, `first = 0` resp. `-2`),
+the values are the coefficient rows `x0 ++ x1` of those slices, and for every face dof `k`
+`a·x0[k] + b·x1[k] = c0[k]` and `c·x0[k] + d·x1[k] = c1[k]`: with `[[a,b],[c,d]]` the values and
+first derivatives of the two end basis functions on the face (the collocation contract: no other
+basis function has a non-zero value or first derivative there), the returned coefficients
+reproduce the interpolants of the prescribed value `g0` and time derivative `g1`. -/
+theorem initial_condition_01 {α : Type} [Field α] [DecidableEq α] (N : List Nat) (bd : BdSpec)
+    (a b c d : α) (c0 c1 : List α) (idx : List Nat) (vals : List α)
+    (h : initialCondition01 N bd a b c d c0 c1 = .ok (idx, vals)) :
+    ∃ ax side s0 s1 x0 x1, parseBdspec bd N.length = .ok (ax, side) ∧
+      Pyiga.Slice.sliceIndices ax (if side = 0 then 0 else -2) N none = .ok s0 ∧
+      Pyiga.Slice.sliceIndices ax ((if side = 0 then 0 else -2) + 1) N none = .ok s1 ∧
+      idx = s0 ++ s1 ∧ vals = x0 ++ x1 ∧ a * d - b * c ≠ 0 ∧
+      x0.length = c0.length ∧ x1.length = c0.length ∧
+      ∀ k, k < c0.length → a * x0.getD k 0 + b * x1.getD k 0 = c0.getD k 0 ∧
+        c * x0.getD k 0 + d * x1.getD k 0 = c1.getD k 0 := by
+  obtain ⟨ax, side, s0, s1, x0, x1, hp, hlen, hs, h0, h1, rfl, rfl⟩ := initialCondition01_inv h
+  obtain ⟨hdet, hx0, hx1, hk⟩ := solve2_spec hlen hs
+  exact ⟨ax, side, s0, s1, x0, x1, hp, h0, h1, rfl, rfl, hdet, hx0, hx1, hk⟩
+
+/-- non-vacuity (degree-2 time axis with 2 spans at the start face: `N₀(0)=1, N₀'(0)=-4, N₁'(0)=4`) -/
+example : initialCondition01 [4, 3] (.pair 0 0) (1 : Rat) 0 (-4) 4 [1, 2, 3] [4, 8, 12] =
+    .ok ([0, 1, 2, 3, 4, 5], [1, 2, 3, 2, 4, 6]) := by decide +kernel
+
 /-! ### non-vacuity: the D5 witness `idx = [3,1]`, `vals = [30,10]` on a 5 × 5 integer system -/
 
 def exA : List (List Int) :=
